@@ -2,6 +2,7 @@ import WalrusVerif.Model.Hex
 import WalrusVerif.Model.Sanitize
 import WalrusVerif.Model.WalKey
 import WalrusVerif.Model.Meta
+import WalrusVerif.Model.Snapshot
 import WalrusVerif.Model.Engine
 import WalrusVerif.Model.Quirks
 import WalrusVerif.Model.Frame
@@ -53,8 +54,38 @@ def fmtTopic : Option Meta.TopicState → String
   | none => "none"
   | some t => s!"cur={t.currentSegment} leader={t.leaderNode} off={t.lastSealedEntryOffset} sealed=[{fmtPairs t.sealedSegments}] leaders=[{fmtPairs t.segmentLeaders}]"
 
+def utf8Codec : Snap.Codec :=
+  { encName := fun s => (String.ofList s).toUTF8.toList,
+    decName := fun b => (String.fromUTF8? (ByteArray.mk b.toArray)).map String.toList }
+
+def sortBy {α : Type} (key : α → String) (l : List α) : List α :=
+  (l.toArray.qsort (fun a b => key a < key b)).toList
+
+/-- canonical dump of the whole metadata state (maps sorted) -/
+def dumpState (s : Meta.ClusterState) : String :=
+  let ts := sortBy (fun (p : Meta.Name × Meta.TopicState) => Hex.encodeStr p.1) s.topics
+  let ns := (s.nodes.toArray.qsort (fun a b => a.1 < b.1)).toList
+  "topics{" ++ ";".intercalate (ts.map fun (n, t) => Hex.encodeStr n ++ "=" ++ fmtTopic (some t)) ++ "} nodes{" ++
+    ",".intercalate (ns.map fun (i, a) => s!"{i}:{Hex.encodeStr a}") ++ "}"
+
 def handleMeta (st : DState) (toks : List String) : Option (DState × String) :=
   match toks with
+  | ["meta", "dump"] => some (st, dumpState st.md)
+  | ["meta", "restorecheck", b] =>
+    -- decode a snapshot taken by the real implementation and compare with the model's own state
+    match (if b = "-" then some [] else Hex.decodeBytes b.toList) with
+    | some bs =>
+      match Snap.decState utf8Codec bs with
+      | some s' => some (st, if dumpState s' = dumpState st.md then "same" else "different")
+      | none => some (st, "ERR:decode")
+    | none => some (st, "bad-op")
+  | ["meta", "selfcheck"] =>
+    -- the model's own snapshot/restore round trip on the current state
+    let r := Snap.restore utf8Codec Meta.ClusterState.init (Snap.snapshot utf8Codec st.md)
+    some (st, if r.2 && dumpState r.1 = dumpState st.md then "same" else "different")
+  | ["meta", "adapter"] =>
+    let r := Snap.adapterInstall utf8Codec Meta.ClusterState.init (Snap.adapterBuild st.md)
+    some (st, if r.2 then "install:ok" else "install:err")
   | ["meta", "reset"] => some ({ st with md := Meta.ClusterState.init }, "ok")
   | ["meta", "create", n, l] =>
     match Hex.decodeStr n, l.toNat? with
